@@ -2,6 +2,7 @@ package vc
 
 import (
 	"fmt"
+	"sort"
 	"strings"
 
 	"golang.org/x/tools/go/ssa"
@@ -18,6 +19,44 @@ func (f *Frame) callSiteAsserts(instr *ssa.Call, cc *ssa.CallCommon, calleeName 
 		in = instr
 	}
 	f.siteAsserts(in, cc, calleeName, args, reach, st)
+}
+
+// blockInLoop: b belongs to a loop of its function (its path condition then speaks about an
+// arbitrary iteration, not about the whole execution).
+func (f *Frame) blockInLoop(b *ssa.BasicBlock) bool {
+	li := f.eng.loopsOf(b.Parent())
+	for _, l := range li.ordered {
+		if l.blocks[b] {
+			return true
+		}
+	}
+	return false
+}
+
+// calledCond is the meaning of called(X) at the current point: the execution came through a call
+// of a function whose name ends in X (same matching as `assert at call X`). Defined for call
+// sites outside loops only.
+func (f *Frame) calledCond(want string) (string, error) {
+	var rs []string
+	for short, list := range f.top.callReach {
+		if !(short == want || strings.HasSuffix(short, "/"+want) || strings.HasSuffix(short, "."+want)) {
+			continue
+		}
+		for _, r := range list {
+			if r == "inloop" {
+				return "", fmt.Errorf("called(%s): a call site of %s is inside a loop", want, short)
+			}
+			rs = append(rs, r)
+		}
+	}
+	if len(rs) == 0 {
+		return "false", nil
+	}
+	sort.Strings(rs)
+	if len(rs) == 1 {
+		return rs[0], nil
+	}
+	return "(or " + strings.Join(rs, " ") + ")", nil
 }
 
 // goSiteAsserts: the same for a go statement (anchor `call go.<callee>`).
@@ -42,6 +81,18 @@ func (f *Frame) siteAsserts(instr ssa.Instruction, cc *ssa.CallCommon, calleeNam
 		if !isClosure {
 			return
 		}
+	}
+	// called(X) in exit clauses: the path conditions of the call sites met so far, by callee name
+	if top.callReach == nil {
+		top.callReach = map[string][]string{}
+	}
+	{
+		short := shortFuncName(calleeName)
+		r := reach
+		if instr != nil && instr.Block() != nil && f.blockInLoop(instr.Block()) {
+			r = "inloop"
+		}
+		top.callReach[short] = append(top.callReach[short], r)
 	}
 	for _, a := range top.contract.Asserts {
 		// "call? X": the same, but a function without any call of X satisfies the clause
